@@ -145,6 +145,8 @@ fn name_strategy() -> BoxedStrategy<String> {
         3 => "[a-zA-Z0-9_-]{1,10}".prop_map(|s| s),
         // printable characters without quote, CR, LF
         3 => "[^\\p{C}\"]{1,10}".prop_map(|s| s),
+        // characters whose code points end in 0x22, 0x0D, 0x0A; combining marks, joiners, a variation selector
+        1 => prop_oneof![Just("\u{fa}\u{10d}et.pdf".to_string()), Just("\u{540d}\u{524d}".to_string()), Just("\u{2122}\u{122}\u{10a}".to_string()), Just("re\u{301}sume\u{301}".to_string()), Just("\u{1f468}\u{200d}\u{1f469}\u{fe0f}".to_string())],
         1 => prop_oneof![Just(String::new()), Just(" ".to_string()), Just("a b; c=d".to_string()), Just("caf\u{e9} \u{65e5}\u{672c}".to_string()), Just("name=x; filename=y".to_string()), Just("\\".to_string()), Just("a'b".to_string())],
     ]
     .boxed()
